@@ -7,6 +7,11 @@
            (parent slot anywhere, not re-parsed), ids 0,1,.. (px_b, nexus_b) or never set (nexus_z: all "tree0")
            (first (((fmt f) (first REC) (head REC|())) ...)))
     REC : ((id n) (err msg)) | ((id n) (err "") (nwk text) (tree T) (audit (...)))
+    optional in the case: (pxdoc "a PhyloXML document") -- the same trees rendered by the generator (not by the writer under
+    test) as a PhyloXML file: <name>, <branch_length>, <confidence> on every clade that has them, in any order.  Then
+    obs has (pxd_recs ..) the document read, (pxd_px s) (pxd_px_err e) (pxd_px_recs ..) document -> WritePhyloXML -> read,
+    (pxd_nwk s) (pxd_nwk_recs ..) Newick() of the trees read, one per line, and its records, (pxd_nexus ..)(_err)(_recs)
+    document -> WriteNexus -> read.
 
     Domain of the oracle (the quantifier of C13): every tree is well formed in the sense of
     C01 ([wfN]: >= 2 tips, root with >= 2 children, ...), carries no comment and no p-value,
@@ -56,6 +61,22 @@ Definition plain_tree (t : utree) : bool :=
   negb (has_dup (tip_names t)).
 
 Definition in_domain (t : utree) : bool := wfNC t && plain_tree t.
+
+(** what Newick / Nexus text can carry of [t]: the support of a branch above a named inner node is not written *)
+Definition strip_edge (e : einfo) (ch : utree) : einfo :=
+  if negb (String.eqb (uname ch) "") && negb (is_nil (kids ch)) then mkE (elen e) nilv (epv e) (ecom e) else e.
+Fixpoint strip_sup (t : utree) : utree :=
+  match t with
+  | UNode n c sl =>
+    UNode n c (map (fun s => match s with
+                             | Some (e, ch) => Some (strip_edge e ch, strip_sup ch)
+                             | None => None
+                             end) sl)
+  end.
+
+(** the domain for trees that may carry a name and a support on the same inner node *)
+Definition in_domain_px (t : utree) : bool :=
+  in_domain (strip_sup t) && forallb (fun p => num_ok is_b64 (esup (fst p))) (edges t).
 
 (** * Oracle *)
 Definition rec_tree (r : oitem) : option utree := if is_tree_item r then i_tree r else None.
@@ -220,6 +241,56 @@ Definition built_corr (ts : list utree) (translate : bool) (o : sexp) : option s
       | None => Some "undecodable observation"
       end ].
 
+Definition px_model_recs (ts : list utree) : list (nat * option string * (utree + string)) :=
+  combine (combine (seq 0 (length ts)) (map (fun _ => None) ts))
+          (map (fun t => clade_to_tree (write_clade None t)) ts).
+
+Fixpoint lines_of (l : list string) : string :=
+  match l with [] => "" | x :: r => x ++ String "010" (lines_of r) end.
+
+(** chains that start from a PhyloXML document *)
+Definition px_doc_corr (ts : list utree) (translate : bool) (c o : sexp) : option string :=
+  match get_string "pxdoc" c with
+  | None => None
+  | Some _ =>
+    match recs_of "pxd_recs" o, recs_of "pxd_px_recs" o, get_string "pxd_nwk" o, recs_of "pxd_nwk_recs" o with
+    | Some dr, Some pr, Some ntext, Some nr =>
+      first_some
+        [ cmp_records "PhyloXML document: reader" (px_model_recs ts) dr;
+          match all_inl (map (fun t => clade_to_tree (write_clade None t)) ts) with
+          | None => None
+          | Some l1 =>
+            first_some
+              [ (if String.eqb (str_or "pxd_px_err" o) "" then None else Some "PhyloXML -> PhyloXML: WritePhyloXML fails, the model does not");
+                cmp_records "PhyloXML -> PhyloXML: reader" (px_model_recs l1) pr;
+                (if String.eqb (lines_of (map writeC l1)) ntext then None
+                 else Some ("PhyloXML -> Newick: writer, model: " ++ lines_of (map writeC l1)));
+                (match read_multi npC (phys_reads (S (String.length ntext)) bufsz ntext) with
+                 | MDone l => cmp_records "PhyloXML -> Newick: reader" (model_items l) nr
+                 | _ => Some "PhyloXML -> Newick: model predicts a panic"
+                 end);
+                nexus_chain_corr "PhyloXML document" "pxd_nexus" (seq 0 (length l1)) l1 translate o ]
+          end ]
+    | _, _, _, _ => Some "undecodable observation"
+    end
+  end.
+
+Definition px_doc_oracle (ts : list utree) (c o : sexp) : option string :=
+  match get_string "pxdoc" c with
+  | None => None
+  | Some _ =>
+    match recs_of "pxd_recs" o, recs_of "pxd_px_recs" o, recs_of "pxd_nwk_recs" o, recs_of "pxd_nexus_recs" o with
+    | Some dr, Some pr, Some nr, Some xr =>
+      let ts' := map strip_sup ts in
+      first_some
+        [ chain_oracle "PhyloXML document -> tree" "" ts dr;
+          chain_oracle "PhyloXML -> PhyloXML (name, length and support of every clade)" (str_or "pxd_px_err" o) ts pr;
+          chain_oracle "PhyloXML -> Newick (shape, names, lengths; supports of unnamed inner nodes)" "" ts' nr;
+          chain_oracle "PhyloXML -> Nexus -> Newick (shape, names, lengths; supports of unnamed inner nodes)" (str_or "pxd_nexus_err" o) ts' xr ]
+    | _, _, _, _ => Some "undecodable observation"
+    end
+  end.
+
 Definition corr (ts : list utree) (translate breaks : bool) (breakat : list nat) (seps : list string) (o : sexp) : option string :=
   match get_strings "texts" o, get_string "src" o, get_string "nexus" o, get_string "tnexus" o,
         (x <- get "multi" o ;; dec_list dec_item x),
@@ -268,7 +339,8 @@ Definition corr (ts : list utree) (translate breaks : bool) (breakat : list nat)
   | _, _, _, _, _, _, _, _ => Some "undecodable observation"
   end.
 
-Definition oracle (ts : list utree) (o : sexp) : option string :=
+Definition oracle (ts0 : list utree) (o : sexp) : option string :=
+  let ts := map strip_sup ts0 in
   match (x <- get "multi" o ;; dec_list dec_item x),
         (x <- get "nexus_recs" o ;; dec_list dec_item x),
         (x <- get "px_recs" o ;; dec_list dec_item x),
@@ -280,7 +352,7 @@ Definition oracle (ts : list utree) (o : sexp) : option string :=
          chain_oracle "Newick -> PhyloXML -> Newick" (str_or "px_err" o) ts precs;
          chain_oracle "Tree.Nexus() -> Newick" "" (firstn 1 ts) trecs;
          (match recs_of "px_b_recs" o with
-          | Some r => chain_oracle "tree built through the API -> PhyloXML -> Newick" (str_or "px_b_err" o) ts r
+          | Some r => chain_oracle "tree built through the API -> PhyloXML -> tree" (str_or "px_b_err" o) ts0 r
           | None => Some "undecodable observation" end);
          (match recs_of "nexus_b_recs" o with
           | Some r => chain_oracle "tree built through the API -> Nexus -> Newick" (str_or "nexus_b_err" o) ts r
@@ -301,11 +373,11 @@ Definition judge (c o : sexp) : verdict :=
     match (x <- get "trees" c ;; dec_list dec_utree x), get_bool "translate" c, get_bool "breaks" c, get_strings "seps" c with
     | Some ts, Some translate, Some breaks, Some seps =>
       let breakat := match get_nats "breakat" c with Some l => l | None => [] end in
-      let dom := forallb in_domain ts in
-      match (if dom then oracle ts o else None) with
+      let dom := forallb in_domain_px ts in
+      match (if dom then first_some [oracle ts o; px_doc_oracle ts c o] else None) with
       | Some m => VOracle m
       | None =>
-        match corr ts translate breaks breakat seps o with
+        match first_some [corr ts translate breaks breakat seps o; px_doc_corr ts translate c o] with
         | Some m => if String.eqb m "undecodable observation" then VBad m else VCorr m
         | None => VOk dom (if dom then (if translate then "translate" else "plain") else "outside-domain")
         end
